@@ -168,6 +168,12 @@ func (vc VisitorContext) visitBranchNode(branchNode *jet.BranchNode) {
 }
 
 func (vc VisitorContext) visitYieldNode(yieldNode *jet.YieldNode) {
+	if yieldNode.Parameters == nil { // {{yield content}} has no parameter list
+		if yieldNode.Expression != nil {
+			vc.visitNode(yieldNode.Expression)
+		}
+		return
+	}
 	for _, node := range yieldNode.Parameters.List {
 		if node.Expression != nil {
 			vc.visitNode(node.Expression)
@@ -191,6 +197,10 @@ func (vc VisitorContext) visitSetNode(setNode *jet.SetNode) {
 }
 
 func (vc VisitorContext) visitAdditiveExprNode(additiveExprNode *jet.AdditiveExprNode) {
+	if additiveExprNode.Left == nil { // unary minus / plus
+		vc.visitNode(additiveExprNode.Right)
+		return
+	}
 	vc.visitNode(additiveExprNode.Left)
 	vc.visitNode(additiveExprNode.Right)
 }
@@ -239,8 +249,12 @@ func (vc VisitorContext) visitIndexExprNode(indexNode *jet.IndexExprNode) {
 
 func (vc VisitorContext) visitSliceExprNode(sliceExprNode *jet.SliceExprNode) {
 	vc.visitNode(sliceExprNode.Base)
-	vc.visitNode(sliceExprNode.Index)
-	vc.visitNode(sliceExprNode.EndIndex)
+	if sliceExprNode.Index != nil { // a[:j]
+		vc.visitNode(sliceExprNode.Index)
+	}
+	if sliceExprNode.EndIndex != nil { // a[i:]
+		vc.visitNode(sliceExprNode.EndIndex)
+	}
 }
 
 func (vc VisitorContext) visitCommandNode(commandNode *jet.CommandNode) {
